@@ -4,8 +4,15 @@
 
    PARTIAL.  Covered productions of  parse_X (print_X x ++ rest) = POk (x, rest):
      * Tag  (UNIVERSAL / APPLICATION / PRIVATE / context-specific, every numeral FromStr accepts), for every rest;
-     * "[ tag ] word" in front of a type (next_with_opt_tag), tag optional, for every rest.
-   NOT covered by theorems: SIZE, INTEGER ranges and named numbers, ENUMERATED, literals, OIDs, imports and the
+     * "[ tag ] word" in front of a type (next_with_opt_tag), tag optional, for every rest;
+     * SIZE ( a ) | SIZE ( a , ... ) | SIZE ( a .. b ) | SIZE ( a .. b , ... )  with a, b numerals or value
+       references (Size::try_from), except the two forms the parser rewrites (SIZE(0..MAX) -> no constraint: class
+       size_0_max_becomes_unconstrained; SIZE(a..a) = SIZE(a), the canonical projection), for every rest;
+     * named numbers / named bits { n ( v ) , ... } for any value parser (maybe_read_constants), and
+       INTEGER [{ named numbers }] ( lo .. hi [, ...] ) with lo, hi numerals, value references or MIN / MAX
+       (Integer::try_from), except the two folded forms (0..MAX), (MIN..i64::MAX) (classes integer_0_max_...,
+       integer_min_i64max_...); the unconstrained INTEGER under the follow-set condition "neither { nor ( follows".
+   NOT covered by theorems: ENUMERATED, literals, OIDs, imports and the
    mutually recursive type grammar (components / CHOICE / OF), module level; these are covered by the differential
    tie of whole modules (op 3301: the model's dump equals the crate's) and by the Python oracle canon(A) only.
    Refuted classes: one vm_compute witness each on the whole front-end model (tokenizer, parser, resolver). *)
@@ -22,6 +29,59 @@ Theorem C07_parse_print_opt_tag_partial : forall t num w rest,
   (forall tg, t = Some tg -> parse_u64 num = Some (tag_number tg)) ->
   next_with_opt_tag (print_opt_tag t num ++ T w :: rest) = POk (T w, t, rest).
 Proof. exact next_with_opt_tag_print. Qed.
+
+Theorem C07_parse_print_size_partial : forall s sa sb rest,
+  size_wf s sa sb ->
+  read_size (print_size s sa sb ++ rest) = POk (s, rest).
+Proof. exact read_size_print. Qed.
+
+Theorem C07_parse_print_named_numbers_partial : forall (V : Type) (parser : token -> pres V) its rest,
+  Forall (item_ok V parser) its ->
+  (its = [] -> peek_is_sep C_LBRACE rest = false) ->
+  maybe_read_constants V parser (print_constants its ++ rest) = POk (map item_value its, rest).
+Proof. exact maybe_read_constants_print. Qed.
+
+Theorem C07_parse_print_integer_range_partial : forall (its : list (str * str * Z)) r sa sb rest,
+  Forall (item_ok Z constant_i64_parser) its ->
+  range_wf r sa sb ->
+  read_integer (print_constants its ++ print_range r sa sb ++ rest) = POk (r, map item_value its, rest).
+Proof. exact read_integer_print. Qed.
+
+Theorem C07_parse_print_integer_unconstrained_partial : forall rest,
+  peek_is_sep C_LBRACE rest = false -> peek_is_sep C_LPAREN rest = false ->
+  read_integer rest = POk ((None, None, false), [], rest).
+Proof. exact read_integer_unconstrained. Qed.
+
+(* non-vacuity of the SIZE and INTEGER hypotheses: SIZE(lo..64, ...) and INTEGER { a(1), b(-2) } (MIN..hi) *)
+Example C07_nonvacuous_size :
+  size_wf (SRange (Ref (s2n "lo")) (Lit 64) true) (s2n "lo") (s2n "64") /\
+  read_size (print_size (SRange (Ref (s2n "lo")) (Lit 64) true) (s2n "lo") (s2n "64") ++ [P C_RPAREN])
+    = POk (SRange (Ref (s2n "lo")) (Lit 64) true, [P C_RPAREN]).
+Proof.
+  split.
+  - cbn [size_wf denotes_n]. split; [|split; [|split]].
+    + split; [reflexivity | split; [vm_compute; reflexivity | split; vm_compute; reflexivity]].
+    + vm_compute; reflexivity.
+    + reflexivity.
+    + intros [H _]. discriminate H.
+  - vm_compute. reflexivity.
+Qed.
+
+Example C07_nonvacuous_integer :
+  Forall (item_ok Z constant_i64_parser) [(s2n "a", s2n "1", 1%Z); (s2n "b", s2n "-2", (-2)%Z)] /\
+  range_wf (None, Some (Ref (s2n "hi")), false) (s2n "MIN") (s2n "hi") /\
+  read_integer (print_constants [(s2n "a", s2n "1", 1%Z); (s2n "b", s2n "-2", (-2)%Z)]
+                ++ print_range (None, Some (Ref (s2n "hi")), false) (s2n "MIN") (s2n "hi") ++ [P C_COMMA])
+    = POk ((None, Some (Ref (s2n "hi")), false), [(s2n "a", 1%Z); (s2n "b", (-2)%Z)], [P C_COMMA]).
+Proof.
+  split; [|split].
+  - constructor; [vm_compute; reflexivity | constructor; [vm_compute; reflexivity | constructor]].
+  - cbn [range_wf denotes_z]. split; [reflexivity | split; [|split]].
+    + split; [reflexivity | split; vm_compute; reflexivity].
+    + intros [H _]. discriminate H.
+    + intros [_ H]. discriminate H.
+  - vm_compute. reflexivity.
+Qed.
 
 (* non-vacuity: [APPLICATION 007] in front of BOOLEAN *)
 Example C07_nonvacuous :
@@ -115,6 +175,10 @@ Proof. vm_compute. reflexivity. Qed.
 
 Print Assumptions C07_parse_print_tag_partial.
 Print Assumptions C07_parse_print_opt_tag_partial.
+Print Assumptions C07_parse_print_size_partial.
+Print Assumptions C07_parse_print_named_numbers_partial.
+Print Assumptions C07_parse_print_integer_range_partial.
+Print Assumptions C07_parse_print_integer_unconstrained_partial.
 Print Assumptions C07_refuted_integer_0_max_becomes_unconstrained.
 Print Assumptions C07_refuted_size_0_max_becomes_unconstrained.
 Print Assumptions C07_refuted_marker_before_first_component.
